@@ -528,6 +528,18 @@ impl Deb822 {
             }
             None => self.0.children().count(),
         };
+        // The text in front of the new paragraph must end in a newline,
+        // otherwise the separating blank line merely terminates its last line.
+        if insertion_point > 0 {
+            let last = match self.0.children_with_tokens().nth(insertion_point - 1) {
+                Some(rowan::NodeOrToken::Node(n)) => n.last_token(),
+                Some(rowan::NodeOrToken::Token(t)) => Some(t),
+                None => None,
+            };
+            if let Some(last) = last {
+                terminate_line(&last);
+            }
+        }
         self.0
             .splice_children(insertion_point..insertion_point, to_insert);
         paragraph
@@ -617,6 +629,23 @@ impl Deb822 {
         let mut buf = String::new();
         r.read_to_string(&mut buf)?;
         Ok(Self::from_str_relaxed(&buf))
+    }
+}
+
+/// Append a newline after `last` (in the node that contains it) unless it
+/// already is one, so that whatever is inserted next starts on a new line.
+fn terminate_line(last: &SyntaxToken) {
+    if last.kind() != NEWLINE {
+        let mut builder = GreenNodeBuilder::new();
+        builder.start_node(ENTRY.into());
+        builder.token(NEWLINE.into(), "\n");
+        builder.finish_node();
+        let newline = SyntaxNode::new_root_mut(builder.finish())
+            .first_token()
+            .unwrap();
+        let parent = last.parent().unwrap();
+        let count = parent.children_with_tokens().count();
+        parent.splice_children(count..count, vec![newline.into()]);
     }
 }
 
@@ -844,18 +873,7 @@ impl Paragraph {
     /// an entry appended to it starts on a line of its own.
     fn ensure_trailing_newline(&self) {
         if let Some(last) = self.0.last_token() {
-            if last.kind() != NEWLINE {
-                let mut builder = GreenNodeBuilder::new();
-                builder.start_node(ENTRY.into());
-                builder.token(NEWLINE.into(), "\n");
-                builder.finish_node();
-                let newline = SyntaxNode::new_root_mut(builder.finish())
-                    .first_token()
-                    .unwrap();
-                let parent = last.parent().unwrap();
-                let count = parent.children_with_tokens().count();
-                parent.splice_children(count..count, vec![newline.into()]);
-            }
+            terminate_line(&last);
         }
     }
 
